@@ -24,25 +24,40 @@ class Finding:
         self.property = d["property"]
         self.also = d.get("also", [])
         self.what = d.get("what", "")
-        self.signature = d.get("signature", {})
         self.trigger = d.get("trigger")
         self.witness = d.get("witness", {})
+        # per property: list of alternative signature patterns (dict subset match; {"in": [...]} = one of)
+        self.signatures = {k: (v if isinstance(v, list) else [v]) for k, v in d.get("signatures", {}).items()}
+        if "signature" in d:
+            self.signatures.setdefault(self.property, []).append(d["signature"])
 
     def lists(self, prop):
         return prop == self.property or prop in self.also
 
-    def matches(self, prop, violation):
-        if not self.lists(prop):
-            return False
-        sig = violation.get("signature", {})
-        for k, v in self.signature.items():
+    @staticmethod
+    def _sub(pat, sig):
+        for k, v in pat.items():
             if isinstance(v, dict) and "in" in v:
                 if sig.get(k) not in v["in"]:
                     return False
             elif sig.get(k) != v:
                 return False
-        if self.trigger and self.trigger not in violation.get("triggers", []):
+        return True
+
+    def matches(self, prop, violation):
+        if not self.lists(prop):
             return False
+        pats = self.signatures.get(prop)
+        if not pats:
+            return False
+        sig = violation.get("signature", {})
+        if not any(self._sub(p, sig) for p in pats):
+            return False
+        if self.trigger:
+            trig = self.trigger if isinstance(self.trigger, list) else [self.trigger]
+            have = violation.get("triggers", [])
+            if not any(t in have for t in trig):
+                return False
         return True
 
 
